@@ -90,6 +90,7 @@ class Runner:
         self.seen_mixed = 0
         self.ctl_crash_seen = False
         self.skipped = 0
+        self.outside = None
         self.cm = None
 
     def __enter__(self):
@@ -154,7 +155,11 @@ class Runner:
         return f"({cN(self.addrnum(af[0]))}, {self.c_frame(af[1])})"
 
     def c_netop(self, name, af):
-        return f"OA ({name} {cN(self.addrnum(af[0]))} {self.c_frame(af[1])})"
+        try:
+            return f"OA ({name} {cN(self.addrnum(af[0]))} {self.c_frame(af[1])})"
+        except OutsideModel as e:   # the trace goes on (the oracle judges it); there is no model term for it
+            self.outside = str(e)
+            return "OA (ATick 0)"
 
     def frame_kind(self, frames):
         import pickle
@@ -460,11 +465,13 @@ def drain(r, do, rounds=7):
 
 def safe_term(r):
     try:
-        return r.term()
+        t = r.term()
     except OutsideModel as e:
-        r.stats.add("trace-outside-model")
         r.outside = str(e)
+    if r.outside:
+        r.stats.add("trace-outside-model")
         return None
+    return t
 
 
 def execute(case, lenient=True):
@@ -481,7 +488,7 @@ def execute(case, lenient=True):
                     r.skipped += 1
             else:
                 r.do(op)
-        if case.get("drained") and lenient and r.skipped:
+        if case.get("drained"):   # a trace resolved on other code may end differently here: finish it fairly before judging completion
             drain(r, r.do)
         r.check_crashes()
         if case.get("drained"):
@@ -788,7 +795,7 @@ def nontrivial(r):
          "pool-sends-interleaved"} & s)
 
 
-STREAMS = [("random", 500, 12000), ("purge-race", 200, 5000), ("concurrent", 160, 4000)]
+STREAMS = [("random", 450, 12000), ("purge-race", 150, 5000), ("concurrent", 150, 4000)]
 
 
 def guarded(make, res, stream):
@@ -831,7 +838,7 @@ def run(ctx, res):
             res.samples.append({"nhosts": case["nhosts"], "datasets": case["datasets"], "ops": case["ops"][:25], "stats": sorted(r.stats)})
         if term is None:
             if not r.fails:
-                res.disagree("the trace contains a message the Coq model has no term for (" + getattr(r, "outside", "") + ") although no oracle fired", case)
+                res.disagree("the trace contains a message the Coq model has no term for (" + str(r.outside) + ") although no oracle fired", case)
             return
         terms.append(term)
         metas.append(case)
